@@ -386,7 +386,10 @@ def run(ctx, replay=None):
             if out != verdict:
                 ctx.violation(f'{name}: corruption [{desc}] -> {out}, the specification says {verdict}',
                               {'kind': 'corruption', 'file': name, 'corruption': [kind, cpath, key, value], 'verdict': verdict, 'observed': out})
-            elif out == 'accept' and kind in ('add_param', 'remove_param', 'set_value'):
+            elif out == 'accept' and kind == 'set_top' and key == 'action_space' and [a.name for a in env.action_space.actions] != json.loads(value):
+                ctx.violation(f'{name}: configured action order {value} became {[a.name for a in env.action_space.actions]}',
+                              {'kind': 'corruption', 'file': name, 'corruption': [kind, cpath, key, value]})
+            elif out == 'accept' and kind in ('add_param', 'remove_param', 'set_value', 'set_top'):
                 # still the described environment: compare with the hand-assembled one
                 env3 = hand_assemble(snapshot, table)
                 cfg = config.spec_config(snapshot)
